@@ -45,6 +45,9 @@ def report(ctx, c, why, b=None, stage='decode', stream=None):
     ctx.violation('%s: %s (ids %s)' % (stage, why, c.ids[:40]), rep, signature=sig)
 
 
+_SHRUNK = set()
+
+
 def as_mapping(resp):
     """the model records the links as the LIST of assignments, the implementation's `bitmap_links` is a dict (a later
     assignment to the same key wins): compare the final mapping"""
@@ -102,7 +105,10 @@ def run_single(ctx, drv, treq, cases, stream, shrinkable=True):
         why = P.compare_decode(impl, model)
         if why:
             small = c
-            if shrinkable and type(c) is P.Case:
+            # shrinking costs driver runs: only for the first failure of each structural signature, a handful per run
+            sigkey = (stream, tuple(sorted(P.classify(c.ids))))
+            if shrinkable and type(c) is P.Case and sigkey not in _SHRUNK and len(_SHRUNK) < 6:
+                _SHRUNK.add(sigkey)
                 def still(c2):
                     cs = P.gen_values(drv, treq, [c2], ctx.rng('shrink'))
                     if not cs:
@@ -324,6 +330,38 @@ def run(ctx):
     ctx.notes.append('implementation objects: %s (harness/objs.py: one aged Decoder/Encoder per option set, re-used for every case)' % objs.policy())
 
 
+def replay_family(ctx, rep):
+    """the recorded sequence on one re-used Decoder object, then the failing message alone on a new object"""
+    import os
+    drv = ctx.driver
+    u = G.universe()
+    seq = rep['sequence']
+    groups = [u.group(*e['tables']) for e in seq]
+    ids = rep['ids']
+    res = G.batch_grouped(drv, [(g, {'op': 'dec-data', 'ids': ids, 'compressed': e['compressed'], 'n': e['n_subsets'],
+                                     'bits': C.data_bits(bytes.fromhex(e['message_hex']))}) for g, e in zip(groups, seq)])
+    compiled = COMPILED_MAX if rep.get('variant') == 'compiled' else None
+    whys = []
+    for e, g, model in zip(seq, groups, res):
+        why = P.compare_decode(C.impl_decode(bytes.fromhex(e['message_hex']), compiled), as_mapping(model))
+        whys.append(why)
+        print('replay, re-used decoder: message under %s (%s): %s' % (g.name, e['source'], why or 'agrees with the model'))
+    old = os.environ.get('VERIF_OBJECTS')
+    os.environ['VERIF_OBJECTS'] = 'fresh'
+    try:
+        alone = P.compare_decode(C.impl_decode(bytes.fromhex(seq[-1]['message_hex']), compiled), as_mapping(res[-1]))
+    finally:
+        if old is None:
+            del os.environ['VERIF_OBJECTS']
+        else:
+            os.environ['VERIF_OBJECTS'] = old
+    print('replay, new decoder, last message alone: %s' % (alone or 'agrees with the model'))
+    if any(whys) or alone:
+        kind = 'fails on a new Decoder as well' if alone else 'fails only after the earlier messages on the same Decoder object (history dependent)'
+        ctx.violation('family replay: %s; %s' % (next(w for w in whys + [alone] if w), kind), rep,
+                      signature={'stage': 'family-decode', 'variant': rep.get('variant')})
+
+
 def replay(ctx, path):
     with open(path) as f:
         body = json.load(f)
@@ -335,12 +373,14 @@ def replay(ctx, path):
         if why:
             ctx.violation('corpus file: ' + why, rep, signature={'stage': 'corpus'})
         return
+    if 'sequence' in rep:
+        return replay_family(ctx, rep)
     c = P.Case([rep['ids']], rep.get('forced', []), rep['n_subsets'], rep['compressed'], rep.get('edition', 4))
     c.valss = rep['values']
     treq = tables_io.group_request()
     b = bytes.fromhex(rep['message_hex'])
     r = P.run_decode(drv, treq, [(c, b)])[0]
-    why = P.compare_decode(r[2], r[3])
+    why = P.compare_decode(r[2], as_mapping(r[3]))
     print('replay:', why or 'implementation and model agree')
     if why:
         report(ctx, c, why, b)
